@@ -63,6 +63,13 @@ Ltac inj_pairs :=
          end; subst.
 Ltac unname_results :=
   repeat match goal with
+         | H : ?c = (?a, ?b, ?d) |- _ =>
+             is_var a; is_var b; is_var d;
+             let Ha := fresh in let Hb := fresh in let Hd := fresh in
+             assert (Ha : a = fst (fst c)) by (rewrite H; reflexivity);
+             assert (Hb : b = snd (fst c)) by (rewrite H; reflexivity);
+             assert (Hd : d = snd c) by (rewrite H; reflexivity);
+             clear H; subst a b d
          | H : ?c = (?a, ?b) |- _ =>
              is_var a; is_var b;
              let Ha := fresh in let Hb := fresh in
